@@ -305,6 +305,57 @@ def run_case(desc):
                 except Exception as e:  # noqa: the implementation's failure is the observation
                     pairs_live.append((target, "init() raised " + type(e).__name__))
                 others = others + pairs_live
+    # (1) the id is re-derived from the FILE on every load: a state point file rewritten to a JSON-different value
+    #     (also one that Python's == cannot tell from the original: 1 / 1.0 / true) must be refused, through every
+    #     way of loading it; (2) an in-place change of one top-level value to such a neighbour must re-key the job to
+    #     the neighbour's id, in this session and for later ones
+    from signac.errors import JobsCorruptedError
+    neighbours = [o for o, _ in others[:6] if isinstance(o, dict)]
+    same_keys = [o for o in neighbours if list(sorted(o)) == list(sorted(v))
+                 and sum(1 for k in v if typed(o[k]) != typed(v[k])) == 1]
+    with scratch_dir("c01e") as d5:
+        proj5 = signac.init_project(path=d5)
+        jt = proj5.open_job(v).init()
+        fn = os.path.join(proj5.workspace, jt.id, "signac_statepoint.json")
+        original = open(fn, "rb").read()
+        for o in same_keys[:3] + [o for o in neighbours if o not in same_keys][:1]:
+            with open(fn, "w") as fh:
+                json.dump(o, fh)
+            fresh = signac.get_project(d5)
+            loads = {"init through a handle opened by state point": lambda: fresh.open_job(v).init(),
+                     "statepoint of a handle opened by id": lambda: fresh.open_job(id=jt.id).statepoint(),
+                     "iteration": lambda: [j.statepoint() for j in signac.get_project(d5)],
+                     "init through the creating handle": lambda: jt.init(),
+                     "check": lambda: signac.get_project(d5).check()}
+            for name, load in loads.items():
+                try:
+                    with _quiet():
+                        load()
+                    ids.append("state point file rewritten to %s: accepted under the old id by %s" % (json.dumps(typed(o)), name))
+                except JobsCorruptedError:
+                    ids.append(jt.id)
+                except Exception as e:  # noqa
+                    ids.append("state point file rewritten to %s: %s raised %s" % (json.dumps(typed(o)), name, type(e).__name__))
+            with open(fn, "wb") as fh:
+                fh.write(original)
+        inplace = []
+        for o in same_keys[:3]:
+            k = [k for k in v if typed(o[k]) != typed(v[k])][0]
+            jm = signac.get_project(d5).open_job(id=jt.id) if len(inplace) % 2 else proj5.open_job(v)
+            jm.init()
+            try:
+                jm.sp[k] = o[k]
+                got = jm.id
+                dirs = sorted(os.listdir(proj5.workspace))
+                later = signac.get_project(d5)
+                inplace += [(o, got), (o, dirs[0] if len(dirs) == 1 else "workspace holds %r" % dirs),
+                            (o, calc_id(later.open_job(id=got).statepoint()))]
+                jm.sp[k] = v[k]          # and back
+                ids.append(jm.id)
+            except Exception as e:  # noqa
+                inplace.append((o, "in-place change of %r raised %s" % (k, type(e).__name__)))
+                break
+        others = others + inplace
     coq = ("{| c1_val := %s; c1_ftab := %s; c1_ids := %s; c1_file := %s; c1_others := %s |}" % (
         coq_json(v), coq_ftab([v, file_val] + [o for o, _ in others]),
         coq_list([coq_str(i) for i in ids], "str"), coq_json(file_val),
@@ -313,6 +364,17 @@ def run_case(desc):
     return Case(coq, desc, obs={"ids": sorted(set(ids)), "spellings": spell, "file": typed(file_val),
                                "others": [[typed(o), i] for o, i in others]},
                 nontrivial=nontrivial(v), key=json.dumps(desc["value"], sort_keys=True), kinds=kinds)
+
+
+class _quiet:
+    """signac logs an error for every corrupted job it meets; keep the check's output readable"""
+    def __enter__(self):
+        import logging
+        logging.disable(logging.CRITICAL)
+
+    def __exit__(self, *a):
+        import logging
+        logging.disable(logging.NOTSET)
 
 
 def search(desc):
